@@ -78,12 +78,15 @@ class Event:
             for transition in transition_list:
                 if transition.equation is not None:
                     n_eq+=1
+                    member_rate=transition.equation
             if n_eq>1:
                 raise InputStateError("Zero or one equations needed, but ", n_eq, " provided")
             elif (n_eq==1) and (rate is not None):
                 raise InputStateError("Rate and equation defined, but only one should be provided")
             elif (n_eq==0) and (rate is None):
                 raise InputStateError("Rate cannot be found in Event or Transitions")
+            elif n_eq==1:
+                self.rate=member_rate
             else:
                 self.rate=rate
                 
